@@ -8,6 +8,8 @@ import (
 	"fmt"
 	"io"
 	"sort"
+	"sync/atomic"
+	"time"
 
 	"pault.ag/go/debian/deb"
 	"pault.ag/go/debian/dependency"
@@ -54,6 +56,8 @@ type FileObs struct {
 
 // Obs is everything one deb.Load execution exposed.
 type Obs struct {
+	Hang    string `json:",omitempty"` // a step of the library did not return within HangGuard
+	Skipped bool   `json:",omitempty"` // not executed: the process had already seen a hang
 	Panic   string `json:",omitempty"`
 	LoadErr string `json:",omitempty"`
 	Loaded  bool
@@ -99,6 +103,10 @@ func (o Obs) Class() string {
 // Brief is a short human-readable rendering of the outcome.
 func (o Obs) Brief() string {
 	switch {
+	case o.Hang != "":
+		return "no termination: " + o.Hang
+	case o.Skipped:
+		return "not executed (an earlier execution did not terminate)"
 	case o.Panic != "":
 		return "panic: " + o.Panic
 	case !o.Loaded:
@@ -118,6 +126,10 @@ func (o Obs) Brief() string {
 // Shape is Brief without error texts (stable across runs that fail for the same reason class).
 func (o Obs) Shape() string {
 	switch {
+	case o.Hang != "":
+		return "no termination"
+	case o.Skipped:
+		return "not executed"
 	case o.Panic != "":
 		return "panic"
 	case !o.Loaded:
@@ -140,52 +152,78 @@ func possNames(rels []dependency.Relation) []string {
 	return out
 }
 
-// Observe loads the bytes with the real deb.Load, drains Deb.Data, then calls after (may be nil; C16 verifies the
-// signature there), then closes the Deb. Panics of the library are outcomes.
-func Observe(b []byte, after func(d *deb.Deb)) Obs {
-	var o Obs
-	var d *deb.Deb
+// HangGuard is how long one load / read / close step of the library may take before it is declared not to
+// terminate (normal steps take micro- to milliseconds).
+var HangGuard = 20 * time.Second
+
+// Aborted is set once a step did not return: the leaked goroutine may hold library-internal locks, so every later
+// execution of this process is skipped (scenarios report exhaustive:false) and the run ends with the violations found.
+var Aborted int32
+
+// Guarded runs f on a goroutine of its own (which inherits the hook context) and reports whether it returned
+// within HangGuard.
+func Guarded(f func()) bool {
+	if atomic.LoadInt32(&Aborted) != 0 {
+		return false
+	}
+	if mc.WithTimeout(HangGuard, f) {
+		return true
+	}
+	atomic.StoreInt32(&Aborted, 1)
+	return false
+}
+
+// Session is one loaded Deb whose phases (load, read payload, close) can be interleaved with other sessions'.
+type Session struct {
+	d    *deb.Deb
+	O    Obs
+	done bool // payload exhausted or failed
+}
+
+// Open loads the bytes with the real deb.Load and records everything but the payload.
+func Open(b []byte) *Session {
+	s := &Session{}
 	panicked, msg := mc.Guard(func() {
 		var err error
-		d, err = deb.Load(bytes.NewReader(b), "verif.deb")
+		s.d, err = deb.Load(bytes.NewReader(b), "verif.deb")
 		if err != nil {
-			o.LoadErr = err.Error()
-			if o.LoadErr == "" {
-				o.LoadErr = "error"
+			s.O.LoadErr = err.Error()
+			if s.O.LoadErr == "" {
+				s.O.LoadErr = "error"
 			}
-			d = nil
+			s.d = nil
 			return
 		}
-		o.Loaded = true
-		o.ControlExt, o.DataExt = d.ControlExt, d.DataExt
-		o.Sizes = map[string]int64{}
-		o.NameOK = true
-		for k, e := range d.ArContent {
-			o.Keys = append(o.Keys, k)
+		s.O.Loaded = true
+		s.O.ControlExt, s.O.DataExt = s.d.ControlExt, s.d.DataExt
+		s.O.Sizes = map[string]int64{}
+		s.O.NameOK = true
+		for k, e := range s.d.ArContent {
+			s.O.Keys = append(s.O.Keys, k)
 			if e == nil {
-				o.NameOK = false
+				s.O.NameOK = false
 				continue
 			}
-			o.Sizes[k] = e.Size
+			s.O.Sizes[k] = e.Size
 			if e.Name != k {
-				o.NameOK = false
+				s.O.NameOK = false
 			}
 		}
-		sort.Strings(o.Keys)
-		c := &d.Control
-		o.Package, o.Source, o.Maintainer, o.MultiArch = c.Package, c.Source, c.Maintainer, c.MultiArch
-		o.Section, o.Priority, o.Homepage, o.Description = c.Section, c.Priority, c.Homepage, c.Description
-		o.Epoch, o.Upstream, o.Revision = c.Version.Epoch, c.Version.Version, c.Version.Revision
-		o.Arch, o.ArchCPU = c.Architecture.String(), c.Architecture.CPU
-		o.InstalledSize = c.InstalledSize
-		o.Deps = map[string]string{}
-		o.DepNames = map[string][]string{}
+		sort.Strings(s.O.Keys)
+		c := &s.d.Control
+		s.O.Package, s.O.Source, s.O.Maintainer, s.O.MultiArch = c.Package, c.Source, c.Maintainer, c.MultiArch
+		s.O.Section, s.O.Priority, s.O.Homepage, s.O.Description = c.Section, c.Priority, c.Homepage, c.Description
+		s.O.Epoch, s.O.Upstream, s.O.Revision = c.Version.Epoch, c.Version.Version, c.Version.Revision
+		s.O.Arch, s.O.ArchCPU = c.Architecture.String(), c.Architecture.CPU
+		s.O.InstalledSize = c.InstalledSize
+		s.O.Deps = map[string]string{}
+		s.O.DepNames = map[string][]string{}
 		add := func(name string, rels int, str string, names []string) {
 			if rels == 0 {
 				return
 			}
-			o.Deps[name] = str
-			o.DepNames[name] = names
+			s.O.Deps[name] = str
+			s.O.DepNames[name] = names
 		}
 		add("Depends", len(c.Depends.Relations), c.Depends.String(), possNames(c.Depends.Relations))
 		add("Recommends", len(c.Recommends.Relations), c.Recommends.String(), possNames(c.Recommends.Relations))
@@ -193,56 +231,105 @@ func Observe(b []byte, after func(d *deb.Deb)) Obs {
 		add("Breaks", len(c.Breaks.Relations), c.Breaks.String(), possNames(c.Breaks.Relations))
 		add("Replaces", len(c.Replaces.Relations), c.Replaces.String(), possNames(c.Replaces.Relations))
 		add("BuiltUsing", len(c.BuiltUsing.Relations), c.BuiltUsing.String(), possNames(c.BuiltUsing.Relations))
-		o.Values = map[string]string{}
+		s.O.Values = map[string]string{}
 		for k, v := range c.Paragraph.Values {
-			o.Values[k] = v
+			s.O.Values[k] = v
 		}
-		o.Order = append([]string(nil), c.Paragraph.Order...)
-		// the payload
-		if d.Data == nil {
+		s.O.Order = append([]string(nil), c.Paragraph.Order...)
+	})
+	if panicked {
+		s.O.Panic = msg
+	}
+	return s
+}
+
+// Deb is the loaded object (nil if Load failed).
+func (s *Session) Deb() *deb.Deb { return s.d }
+
+// Next reads one more entry of Deb.Data (with its body); it returns false when the stream is exhausted or failed.
+func (s *Session) Next() bool {
+	if s.d == nil || s.done || s.O.Panic != "" {
+		return false
+	}
+	more := false
+	panicked, msg := mc.Guard(func() {
+		o := &s.O
+		if s.d.Data == nil {
 			o.DataErr = "Deb.Data is nil"
-		} else {
-			for n := 0; ; n++ {
-				h, err := d.Data.Next()
-				if err == io.EOF {
-					break
-				}
-				if err != nil {
-					o.DataErr = err.Error()
-					break
-				}
-				if n > 10000 {
-					o.DataErr = "more than 10000 entries"
-					break
-				}
-				f := FileObs{Name: h.Name}
-				switch h.Typeflag {
-				case '5':
-					f.Dir = true
-				case '0', 0:
-					body, err := io.ReadAll(d.Data)
-					if err != nil {
-						o.DataErr = err.Error()
-					}
-					f.Body = body
-				default:
-					f.Type = string(rune(h.Typeflag))
-				}
-				o.Files = append(o.Files, f)
-				if o.DataErr != "" {
-					break
+			return
+		}
+		h, err := s.d.Data.Next()
+		if err == io.EOF {
+			return
+		}
+		if err != nil {
+			o.DataErr = err.Error()
+			return
+		}
+		if len(o.Files) > 10000 {
+			o.DataErr = "more than 10000 entries"
+			return
+		}
+		f := FileObs{Name: h.Name}
+		switch h.Typeflag {
+		case '5':
+			f.Dir = true
+		case '0', 0:
+			body, err := io.ReadAll(s.d.Data)
+			if err != nil {
+				o.DataErr = err.Error()
+			}
+			f.Body = body
+		default:
+			f.Type = string(rune(h.Typeflag))
+		}
+		o.Files = append(o.Files, f)
+		more = o.DataErr == ""
+	})
+	if panicked {
+		s.O.Panic = msg
+	}
+	if !more {
+		s.done = true
+	}
+	return more
+}
+
+// ReadPayload drains Deb.Data.
+func (s *Session) ReadPayload() {
+	for s.Next() {
+	}
+}
+
+// Close closes the Deb.
+func (s *Session) Close() {
+	if s.d != nil {
+		mc.Guard(func() { s.d.Close() })
+	}
+}
+
+// Observe loads the bytes with the real deb.Load, drains Deb.Data, then calls after (may be nil; C16 verifies the
+// signature there), then closes the Deb. Panics of the library are outcomes; so is a step that does not return
+// within HangGuard (Obs.Hang).
+func Observe(b []byte, after func(d *deb.Deb)) Obs {
+	if atomic.LoadInt32(&Aborted) != 0 {
+		return Obs{Skipped: true}
+	}
+	res := make(chan Obs, 1)
+	if !Guarded(func() {
+		s := Open(b)
+		if s.d != nil && s.O.Panic == "" {
+			s.ReadPayload()
+			if after != nil && s.O.Panic == "" {
+				if panicked, msg := mc.Guard(func() { after(s.d) }); panicked {
+					s.O.Panic = msg
 				}
 			}
 		}
-		if after != nil {
-			after(d)
-		}
-	})
-	if panicked {
-		o.Panic = msg
+		s.Close()
+		res <- s.O
+	}) {
+		return Obs{Hang: "deb.Load / reading Deb.Data / Close did not return within " + HangGuard.String()}
 	}
-	if d != nil {
-		mc.Guard(func() { d.Close() })
-	}
-	return o
+	return <-res
 }
